@@ -242,7 +242,7 @@ func genC14(rt *rapid.T) c14Case {
 	}
 	if rapid.IntRange(0, 2).Draw(rt, "withprev") == 0 {
 		for i, n := 0, rapid.IntRange(1, 2).Draw(rt, "nprev"); i < n; i++ {
-			c.Prev = append(c.Prev, world.PrevSession{Hold: pick[uint16](rt, "prevhold", 0, 3, 30, 180), End: pick(rt, "prevend", "fin", "cease", "cease+junk")})
+			c.Prev = append(c.Prev, world.PrevSession{Hold: pick[uint16](rt, "prevhold", 0, 3, 30, 180), End: pick(rt, "prevend", "fin", "cease", "cease+junk"), In: rapid.IntRange(0, 2).Draw(rt, "previn") == 0})
 		}
 	}
 	c.Shared = rapid.IntRange(0, 2).Draw(rt, "shared") == 0
